@@ -115,7 +115,7 @@ class C05Oracle(Oracle):
     def after(self, i, op, out):
         oc = out.exc_type if not out.ok else "ok"
         k = op["op"]
-        liquid = k in ("add", "remove", "aspirate", "dispense", "transfer", "distribute")
+        liquid = k in ("add", "remove", "aspirate", "dispense", "transfer", "distribute", "evo_aspirate", "evo_dispense")
         if not self.check_finite(i, op, oc):
             self.stop = True
             return
@@ -132,7 +132,7 @@ class C05Oracle(Oracle):
             self.stop = True
             return
         # ---- remove_inert
-        if k in ("remove", "aspirate"):
+        if k in ("remove", "aspirate", "evo_aspirate"):
             if not self.same_comp(self.pre_snap, self.comp_snapshot(), set()):
                 self.fail("C05.remove_inert", i, op, "ok", f"{k} changed a composition array")
                 self.stop = True
@@ -310,6 +310,13 @@ class Program:
             d = g.gen_distribute(sess, "ok")
             if d is not None:
                 return d
+        if r < 0.66 and self.world["device"] == "evo":
+            op = g.gen_evo(sess, rng.choice(["evo_dispense", "evo_dispense", "evo_aspirate"]), intent="ok")
+            if op["op"] == "evo_dispense" and not op.get("comps"):
+                from ..sim.gen import dyadic_composition
+                from ..sim.geom import enc, flatten_f
+                op["comps"] = [enc(dyadic_composition(rng)) for _ in flatten_f(op["wells"])]
+            return op
         if r < 0.8:
             return g.gen_addremove(sess, rng.choice(["dispense", "add"]), intent="ok")
         if r < 0.97:
